@@ -60,6 +60,10 @@ def cast__string_types(self: XPathConstructor, value: ta.AtomicType) -> str | An
 @constructor('double')
 @constructor('float')
 def cast__numeric_types(self: XPathConstructor, value: ta.AtomicType) -> ta.NumericType:
+    if isinstance(value, UntypedAtomic):
+        # cast from the lexical form, with the XSD version of the parser (an untyped
+        # value taken from a node doesn't know it)
+        value = value.value
     try:
         result = self.type_class.make(value, parser=self.parser)
     except ValueError as err:
